@@ -4,6 +4,7 @@ import (
 	"bytes"
 	"errors"
 	"fmt"
+	"math"
 
 	"github.com/vmihailenco/msgpack/v5"
 )
@@ -105,20 +106,23 @@ func evaluateCondition(skel *Skeleton, orig []byte, cond *Condition) error {
 		return fmt.Errorf("condition: %w", err)
 	}
 
+	// A NaN operand is unordered: it is not equal to, less than or greater than
+	// anything, so only NOT_EQUAL holds.
+	ordered := cmp != cmpUnordered
 	met := false
 	switch cond.Op {
 	case CondEqual:
-		met = cmp == 0
+		met = ordered && cmp == 0
 	case CondNotEqual:
-		met = cmp != 0
+		met = !ordered || cmp != 0
 	case CondGreaterThan:
-		met = cmp > 0
+		met = ordered && cmp > 0
 	case CondGreaterThanOrEqual:
-		met = cmp >= 0
+		met = ordered && cmp >= 0
 	case CondLessThan:
-		met = cmp < 0
+		met = ordered && cmp < 0
 	case CondLessThanOrEqual:
-		met = cmp <= 0
+		met = ordered && cmp <= 0
 	default:
 		return fmt.Errorf("%w: unknown condition op %d", ErrInvalidOp, cond.Op)
 	}
@@ -128,7 +132,12 @@ func evaluateCondition(skel *Skeleton, orig []byte, cond *Condition) error {
 	return nil
 }
 
-// compareLeafBytes returns -1 / 0 / 1 for a < b, a == b, a > b. Numeric
+// cmpUnordered is returned by compareLeafBytes when a float operand is NaN
+// (IEEE 754: NaN compares unordered with everything, including itself).
+const cmpUnordered = 2
+
+// compareLeafBytes returns -1 / 0 / 1 for a < b, a == b, a > b, or cmpUnordered
+// when either operand is a float NaN. Numeric
 // comparisons are class-aware; string / bytes use byte-wise comparison; bool
 // uses canonical false<true ordering. Cross-class comparisons (numeric vs
 // non-numeric, or int vs float) return ErrTypeMismatch.
@@ -216,6 +225,8 @@ func cmpUint64(a, b uint64) int {
 
 func cmpFloat64(a, b float64) int {
 	switch {
+	case math.IsNaN(a) || math.IsNaN(b):
+		return cmpUnordered
 	case a < b:
 		return -1
 	case a > b:
